@@ -36,7 +36,7 @@ TRUSTED_BASE = [
     "base64.b64encode, str.upper are modelled in coq/C17/Codec.v and compared with the standard library on every "
     "generated case; json.dumps(data) and bool(data) of a structured body are passed to the model as oracle values",
     "gen/C17_Consts.v: header keys tested / set by the three auth adapters, their value prefixes and credential "
-    "separators, the X-Request-ID and Content-Type clauses, the method constants of get/post/put/delete/patch, the "
+    "separators, the X-Request-ID clause (exact-key or case-insensitive test, constant reqid_ci) and the Content-Type clause, the method constants of get/post/put/delete/patch, the "
     "default-method expression, the shape of RequestArguments' headers copy, of `self.adapters = own + parent's`, of "
     "the two adapter loops of do_request and of the list/single test of MCallerHttp.clone are read from the source by "
     "harness/props/c17.py:gen_consts (ast, fail-closed)",
